@@ -72,6 +72,7 @@ type PackOpts struct {
 	NoEmptyTrack    bool
 	AudioOnly       bool
 	BigSamples      bool
+	EmsgOnly        bool // with Foreign off: emsg boxes may still precede a moof
 	HugeDurs        bool // a few sample durations around 2^31 / 2^32-1 (legal; sums inside one trun pass 2^32)
 	MixIntervalFull bool // single samples (AddFullSample) may follow sample intervals in one fragment
 	SplitTruns      bool // single-track fragments may carry their samples in two trun boxes (legal; built with CreateTrun/AddChild)
@@ -451,6 +452,11 @@ func Package(r *sim.Run, o PackOpts) (*Production, error) {
 			}
 			for ti := range fr.To {
 				fr.To[ti] = len(p.Log[ti])
+			}
+			// event messages in front of the moof (part of the fragment), also where other foreign boxes are not wanted
+			if o.EmsgOnly && !o.Foreign && t.Chance(300) {
+				frag.AddEmsg(makeEmsg(t))
+				fr.Foreign = append(fr.Foreign, "top:emsg")
 			}
 			// foreign boxes in front of the moof
 			if o.Foreign && t.Chance(350) {
